@@ -314,7 +314,9 @@ def run_check(prop, cfg, tier, seed, workdir):
     log("[%s] tables: %s" % (prop, msg if ok else "FAILED " + msg))
     if not ok:
         return finish_without_harness(prop, cfg, tier, seed, t0, "table extraction failed: " + msg)
-    if "TAIL-MISMATCH" in msg:
+    # only the properties whose theorems use the graph of Version::get (directly, or through "a returned
+    # symbol has a version < 40 that fits") depend on this part of the translator
+    if "TAIL-MISMATCH" in msg and prop in ("C01", "C02", "C03", "C04", "C05", "C10", "C15", "C17"):
         broken.append("translator: Version::get source-text tail does not match the extracted graph")
     # 3. proofs + driver
     ok_drv, out_drv, dt1 = lake_build(["fqmodel"])
